@@ -45,7 +45,8 @@ class Analysis:
             return self._cache[key]
         o = {'split': dict(specs.DEFAULT_SPLIT),
              'lower_bounds': {},
-             'summary': dict(specs.DEFAULT_SUMMARY)}
+             'summary': dict(specs.DEFAULT_SUMMARY),
+             'expand_in': set(specs.EXPAND_IN)}
         if opts:
             for k_, v_ in opts.items():
                 o[k_] = v_
